@@ -161,11 +161,43 @@ def try_stacks(func):
     return out
 
 
+_PARENTS = {}
+
+
+def local_fresh(func, cnode, fresh):
+    """`fresh` plus the targets of enclosing for-loops that iterate over (a
+    navigation of) a private tree: inside such a loop the loop variable is
+    private even if the same name is used for another loop elsewhere."""
+    from sa.mutation import _navigates_fresh
+    key = id(func)
+    if key not in _PARENTS:
+        par = {}
+        for node in ast.walk(func):
+            for child in ast.iter_child_nodes(node):
+                par[id(child)] = node
+        _PARENTS[key] = par
+    par = _PARENTS[key]
+    extra = set()
+    cur = cnode.ast
+    while cur is not None and id(cur) in par:
+        up = par[id(cur)]
+        if isinstance(up, ast.For) and isinstance(up.target, ast.Name) and \
+                cur is not up.iter and any(cur is b for b in up.body):
+            it = up.iter
+            if _navigates_fresh(it, fresh | extra) or (
+                    isinstance(it, ast.Name) and it.id in fresh | extra):
+                extra.add(up.target.id)
+        cur = up
+    return fresh | extra if extra else fresh
+
+
 def node_mutations(ctx, fref, cnode, fresh):
     """Mutations performed when this CFG node executes."""
     exprs = header_exprs(cnode)
     if not exprs:
         return []
+    if cnode.ast is not None:
+        fresh = local_fresh(fref.node, cnode, fresh)
     muts = [(k, t) for k, t in mutation_kind(exprs, fresh)]
     # calls into helpers that mutate
     for call in calls_at(cnode):
@@ -458,7 +490,19 @@ def analyse_apply(ctx, run, cls, func, discharges):
                                 "instance": refusing,
                                 "discharged": discharges[dkey]})
             continue
-        commits = sorted({norm(c.ast) for c, _m, _r, _w in items})
+        def in_loop(cn):
+            par = _PARENTS.get(id(func), {})
+            cur = cn.ast
+            while cur is not None and id(cur) in par:
+                up = par[id(cur)]
+                if isinstance(up, ast.For) and cur is not up.iter:
+                    return (f" [for {ast.unparse(up.target)} in "
+                            f"{ast.unparse(up.iter)}]")
+                cur = up
+            return ""
+        texts = [norm(c.ast) + in_loop(c) for c, _m, _r, _w in items]
+        commits = sorted({t if texts.count(t) == 1 else
+                          f"{t} (x{texts.count(t)})" for t in texts})
         detail = f"{refusing} <= after: " + " ;; ".join(commits)
         nviol += 1
         first = min(items, key=lambda it: it[0].lineno)
@@ -570,6 +614,10 @@ def analyse_validate(ctx, run, cls, func):
 # Reviewed instances that are not violations, keyed by
 # "<Class>.apply|<commit stmt> -> <refusing stmt>", each with the reason.
 DISCHARGES = {
+    "CreateNemoPSyTrans.apply|invoke_trans.apply(routine)":
+        "CreateNemoInvokeScheduleTrans.validate refuses only a node that is "
+        "not a Routine; the loop iterates over psyir.walk(Routine), so no "
+        "later iteration can refuse after an earlier one changed the tree",
     "GOMoveIterationBoundariesInsideKernelTrans.apply|"
     "kschedule = node.get_kernel_schedule()":
         "the only TransformationError in get_kernel_schedule's closure is "
@@ -587,6 +635,10 @@ DISCHARGES = {
 
 # validate() methods with a reviewed mutation
 VALIDATE_DISCHARGES = {
+    "CreateNemoPSyTrans.apply|invoke_trans.apply(routine)":
+        "CreateNemoInvokeScheduleTrans.validate refuses only a node that is "
+        "not a Routine; the loop iterates over psyir.walk(Routine), so no "
+        "later iteration can refuse after an earlier one changed the tree",
     "InlineTrans.validate|routine_table.resolve_imports(symbol_target=sym)":
         "lazy resolution of an import in the *callee's* table; declared out "
         "of scope in DESIGN.md (C26 'not decided')",
